@@ -53,7 +53,7 @@ type tieBook struct {
 	seen map[string]map[string]string // mode -> direction -> first example
 }
 
-func (b *tieBook) note(mode, dir, example string) {
+func (b *tieBook) note(mode, dir string, example func() string) {
 	if dir == noTie || dir == tieMiddle {
 		return
 	}
@@ -66,7 +66,7 @@ func (b *tieBook) note(mode, dir, example string) {
 		b.seen[mode] = map[string]string{}
 	}
 	if _, ok := b.seen[mode][dir]; !ok {
-		b.seen[mode][dir] = example
+		b.seen[mode][dir] = example()
 	}
 }
 
@@ -89,7 +89,7 @@ func clockByLabel(label string) (instant, bool) {
 	return instant{}, false
 }
 
-const recheckWorker = 900 // its own listen addresses, never used by an enumeration worker
+const recheckWorker = 900 // its own scratch directory and environment variables, never used by an enumeration worker
 
 var recheckMu sync.Mutex
 
@@ -97,12 +97,12 @@ var recheckMu sync.Mutex
 func replayOut(spec outSpec, sh shape, clk instant) (*failure, error) {
 	recheckMu.Lock()
 	defer recheckMu.Unlock()
-	env, err := bootOut(spec, recheckWorker, true)
+	env, err := bootOut(spec.Windows, spec.Unload, recheckWorker, []variant{{spec.Sel, spec.Order}}, true)
 	if err != nil {
 		return nil, err
 	}
 	defer env.close()
-	_, _, fl, infra := env.evalCase(sh, clk)
+	_, _, fl, infra := env.evalCase(0, sh, clk)
 	return fl, infra
 }
 
@@ -119,7 +119,7 @@ func replayIn(t *testing.T, set []win, c inCase) (*failure, error) {
 func replayE2E(t *testing.T, spec outSpec, clk instant, route int) (*failure, error) {
 	recheckMu.Lock()
 	defer recheckMu.Unlock()
-	obs, infra := runE2E(t, spec, recheckWorker, []instant{clk})
+	obs, infra := runE2E(t, spec.Windows, recheckWorker, []variant{{spec.Sel, spec.Order}}, []instant{clk})
 	if infra != nil {
 		return nil, infra
 	}
@@ -202,85 +202,104 @@ func TestCheck(t *testing.T) {
 
 // ---- outbound ---------------------------------------------------------------
 
+// outUnit is one booted configuration: a tuple of versions and which of them
+// (if any) cannot be loaded at signing time; its routes carry every
+// selection x secret_ref order.
 type outUnit struct {
 	Windows []win
-	Sel     string
 	Unload  int
 }
 
 func outUnits() []outUnit {
 	var us []outUnit
 	for _, set := range allSets(3) {
-		for _, sel := range selections {
-			for u := -1; u < len(set); u++ {
-				us = append(us, outUnit{set, sel, u})
-			}
+		for u := -1; u < len(set); u++ {
+			us = append(us, outUnit{set, u})
 		}
 	}
-	// small tuples first, so that a budget cut-off loses the biggest ones
-	sort.SliceStable(us, func(i, j int) bool { return len(us[i].Windows) < len(us[j].Windows) })
-	return us
+	return us // allSets yields the small tuples first within every prefix; a budget cut-off loses the tail
 }
 
-// shapesFor: which request shapes a unit is crossed with in which tier (thorough is a superset of quick).
-func shapesFor(r *runner.Run, u outUnit, full, slim []shape) ([]shape, bool) {
-	n := len(u.Windows)
+// shapeLists: index 0 mini (2 shapes) < 1 slim (16) < 2 full (288), each a subset of the next.
+func shapeLists() [3][]shape {
+	slim := slimShapes()
+	return [3][]shape{{slim[2], slim[len(slim)-4]}, slim, fullShapes()}
+}
+
+// shapeLevel: which request shapes a (tuple size, loadability, secret_ref order) is crossed with in a tier.
+// Thorough is at least quick everywhere.
+func shapeLevel(r *runner.Run, n, unload, permIdx int) int {
 	if r.Quick() {
-		if n <= 2 && u.Unload < 0 {
-			return full, true
+		switch n {
+		case 1:
+			return 2
+		case 2:
+			return 1
 		}
-		return slim, false
+		return 0
 	}
-	if u.Unload < 0 || n <= 2 {
-		return full, true
+	if n <= 2 || (unload < 0 && permIdx == 0) {
+		return 2
 	}
-	return slim, false
+	return 1
 }
 
 func outbound(r *runner.Run, deadline time.Time, workers int, ties *tieBook) bool {
 	clocks := clockInstants()
-	full, slim := fullShapes(), slimShapes()
+	lists := shapeLists()
+	full := lists[2]
+	fullIdx := map[shape]int{}
+	for i, sh := range full {
+		fullIdx[sh] = i
+	}
 	units := outUnits()
+	const unset = int8(127)
 	return forEach(len(units), workers, deadline, func(worker, ui int) {
 		u := units[ui]
-		shapes, isFull := shapesFor(r, u, full, slim)
-		var first []int8
+		n := len(u.Windows)
+		vars := allVariants(n)
+		nPerm := len(vars) / len(selections)
+		env, err := bootOut(u.Windows, u.Unload, worker, vars, true)
+		if err != nil {
+			r.Infra("outbound boot (%s unload=%d): %v", pattern(u.Windows), u.Unload, err)
+			return
+		}
+		defer env.close()
+		// control: an unsigned target must get its request, otherwise "not sent" below would mean nothing
+		if got, err := env.deliver("/out/plain", targetOrigin+"/control", shape{Method: 1, Body: 1}, outRoutes[0].Expected, clocks[0].At); err != nil || len(got) != 1 {
+			r.Infra("unsigned control delivery not observed (%v, %d requests)", err, len(got))
+			return
+		}
+		first := make([]int8, len(clocks)*len(full)) // pick of the first secret_ref order, per selection
 		var evals, sent, notSent, noValid, unloadable, tieCases, cachedSecret int64
-		for pi, perm := range permutations(len(u.Windows)) {
-			spec := outSpec{Windows: u.Windows, Order: perm, Sel: u.Sel, Unload: u.Unload}
-			env, err := bootOut(spec, worker, true)
-			if err != nil {
-				r.Infra("outbound boot (%s): %v", spec, err)
-				return
+		for vi, v := range vars {
+			permIdx := vi % nPerm
+			if permIdx == 0 {
+				for i := range first {
+					first[i] = unset
+				}
 			}
-			// control: an unsigned target must get its request, otherwise "not sent" below would mean nothing
-			if got, err := env.deliver("/out/plain", targetOrigin+"/control", shape{Method: 1, Body: 1}, outRoutes[0].Expected, clocks[0].At); err != nil || len(got) != 1 {
-				r.Infra("unsigned control delivery not observed (%v, %d requests)", err, len(got))
-				env.close()
-				return
-			}
-			if pi == 0 {
-				first = make([]int8, len(clocks)*len(shapes))
-			}
+			level := shapeLevel(r, n, u.Unload, permIdx)
+			shapes := lists[level]
+			spec := env.spec(vi)
 			for ci, clk := range clocks {
 				for si, sh := range shapes {
-					pick, tie, fl, infra := env.evalCase(sh, clk)
+					pick, tie, fl, infra := env.evalCase(vi, sh, clk)
 					evals++
 					if infra != nil {
 						r.Infra("outbound case: %v", infra)
-						env.close()
 						return
 					}
 					if fl != nil {
-						sh, clk, spec := sh, clk, spec
-						r.Violation(fl.Key, fl.Msg, replayDoc{Part: "outbound", Spec: &spec, Shape: &sh, Clock: clk.Label, DSL: env.dsl}, func() bool {
+						sh, clk := sh, clk
+						r.Violation(fl.Key, fl.Msg, replayDoc{Part: "outbound", Spec: &spec, Shape: &sh, Clock: clk.Label}, func() bool {
 							f2, err := replayOut(spec, sh, clk)
 							return err == nil && f2 != nil && f2.Key == fl.Key
 						})
 					}
-					ties.note(u.Sel, tie, fmt.Sprintf("%s clock=%s", spec, clk.Label))
 					if tie != noTie {
 						tieCases++
+						ties.note(v.Sel, tie, func() string { return fmt.Sprintf("%s clock=%s", spec, clk.Label) })
 					}
 					switch {
 					case pick >= 0:
@@ -290,30 +309,35 @@ func outbound(r *runner.Run, deadline time.Time, workers int, ties *tieBook) boo
 						}
 					case pick == pickNone:
 						notSent++
-						if len(refGroup(u.Windows, u.Sel, clk.At.UnixNano())) == 0 {
+						if len(refGroup(u.Windows, v.Sel, clk.At.UnixNano())) == 0 {
 							noValid++
 						} else {
 							unloadable++
 						}
 					}
-					idx := ci*len(shapes) + si
-					if pi == 0 {
+					idx := ci*len(full) + fullIdx[sh]
+					switch {
+					case pick == pickFailed:
+					case permIdx == 0:
 						first[idx] = int8(pick)
-					} else if int(first[idx]) != pick && pick != pickFailed && first[idx] != pickFailed {
-						sh, clk, spec := sh, clk, spec
-						r.Violation("out:pick-depends-on-secret_ref-order", fmt.Sprintf("same versions, clock and rule, but listing order %v signs with %s and the first order with %s; %s clock=%s",
-							perm, pickName(pick), pickName(int(first[idx])), spec, clk.Label), replayDoc{Part: "outbound", Spec: &spec, Shape: &sh, Clock: clk.Label, DSL: env.dsl}, nil)
+					case first[idx] != unset && int(first[idx]) != pick:
+						sh, clk := sh, clk
+						r.Violation("out:pick-depends-on-secret_ref-order", fmt.Sprintf("same versions, clock and rule, but listing order %v gives %s and listing order %v gives %s; %s clock=%s",
+							v.Order, pickName(pick), vars[vi-permIdx].Order, pickName(int(first[idx])), spec, clk.Label), replayDoc{Part: "outbound", Spec: &spec, Shape: &sh, Clock: clk.Label}, nil)
 					}
-					if pi == 0 && si == 0 {
-						r.Distinct(fmt.Sprintf("out|%s|%s|%s|u%d|%s", pattern(u.Windows), clk.Label, u.Sel, u.Unload, pickName(pick)))
-						if ui%97 == 0 && ci == 7 {
-							r.Sample(map[string]any{"part": "outbound", "windows": pattern(u.Windows), "selection": u.Sel, "unloadable": u.Unload, "clock": clk.Label,
+					if permIdx == 0 && si == 0 {
+						r.Distinct(fmt.Sprintf("out|%s|%s|%s|u%d|%s", pattern(u.Windows), clk.Label, v.Sel, u.Unload, pickName(pick)))
+						if ui%211 == 0 && ci == 7 && v.Sel == "oldest_valid" {
+							r.Sample(map[string]any{"part": "outbound", "windows": pattern(u.Windows), "selection": v.Sel, "unloadable": u.Unload, "clock": clk.Label,
 								"url": targetOrigin + urlPaths[sh.Path].Raw, "verdict": pickName(pick)})
 						}
 					}
 				}
 			}
-			env.close()
+			r.Add(fmt.Sprintf("out_configs_shape_level_%d", level), 1)
+		}
+		if p := env.rec.problems(); len(p) > 0 {
+			r.Infra("recording transport: %v", p)
 		}
 		r.Add("evaluations", evals)
 		r.Add("out_evaluations", evals)
@@ -323,12 +347,7 @@ func outbound(r *runner.Run, deadline time.Time, workers int, ties *tieBook) boo
 		r.Add("out_not_sent_unloadable_secret", unloadable)
 		r.Add("out_tie_cases", tieCases)
 		r.Add("out_signed_with_value_read_at_boot", cachedSecret)
-		r.Add("out_configs", int64(len(permutations(len(u.Windows)))))
-		if isFull {
-			r.Add("out_full_units", 1)
-		} else {
-			r.Add("out_slim_units", 1)
-		}
+		r.Add("out_boots", 1)
 	})
 }
 
@@ -348,14 +367,14 @@ func pickName(p int) string {
 // version of the secrets block cannot be loaded at start.
 func outboundFixed(r *runner.Run) bool {
 	clocks := clockInstants()
-	spec := outSpec{Windows: []win{{0, -1}}, Order: []int{0}, Sel: modeDefault, Unload: -1}
-	env, err := bootOut(spec, recheckWorker+1, true)
+	env, err := bootOut([]win{{0, -1}}, -1, recheckWorker+1, allVariants(1), true)
 	if err != nil {
 		r.Infra("outboundFixed boot: %v", err)
 		return true
 	}
 	defer env.close()
 	names := outRoutes[0].Expected
+	doc := func(clk instant) replayDoc { return replayDoc{Part: "fixed", Clock: clk.Label, DSL: env.dsl} }
 	for _, clk := range clocks {
 		for m := range methods {
 			for b := range bodies {
@@ -370,11 +389,11 @@ func outboundFixed(r *runner.Run) bool {
 					unix := unixFloor(clk.At.UnixNano())
 					switch {
 					case len(got) != 1:
-						r.Violation("out:direct-secret:not-sent-once", fmt.Sprintf("%d requests for a target with `sign hmac raw:...` at %s", len(got), clk.Label), replayDoc{Part: "fixed", Clock: clk.Label, DSL: env.dsl}, nil)
+						r.Violation("out:direct-secret:not-sent-once", fmt.Sprintf("%d requests for a target with `sign hmac raw:...` at %s", len(got), clk.Label), doc(clk), nil)
 					case got[0].Header.Get(names.Ts) != fmt.Sprint(unix):
-						r.Violation("out:direct-secret:timestamp-header", fmt.Sprintf("timestamp header %q, want %d", got[0].Header.Get(names.Ts), unix), replayDoc{Part: "fixed", Clock: clk.Label, DSL: env.dsl}, nil)
+						r.Violation("out:direct-secret:timestamp-header", fmt.Sprintf("timestamp header %q, want %d", got[0].Header.Get(names.Ts), unix), doc(clk), nil)
 					case got[0].Header.Get(names.Sig) != refOutboundSig([]byte(directSecret), got[0].Method, got[0].path(), unix, got[0].Body):
-						r.Violation("out:direct-secret:signature", fmt.Sprintf("signature header %q is not the reference HMAC over (%s,%s,%d,body)", got[0].Header.Get(names.Sig), got[0].Method, got[0].path(), unix), replayDoc{Part: "fixed", Clock: clk.Label, DSL: env.dsl}, nil)
+						r.Violation("out:direct-secret:signature", fmt.Sprintf("signature header %q is not the reference HMAC over (%s,%s,%d,body)", got[0].Header.Get(names.Sig), got[0].Method, got[0].path(), unix), doc(clk), nil)
 					default:
 						r.Add("out_sent", 1)
 					}
@@ -384,7 +403,7 @@ func outboundFixed(r *runner.Run) bool {
 						return true
 					}
 					if len(got) != 0 {
-						r.Violation("out:unloadable-direct-secret:sent", fmt.Sprintf("a request was sent for a target whose `sign hmac env:%s` cannot be loaded (clock %s)", neverSetEnv, clk.Label), replayDoc{Part: "fixed", Clock: clk.Label, DSL: env.dsl}, nil)
+						r.Violation("out:unloadable-direct-secret:sent", fmt.Sprintf("a request was sent for a target whose `sign hmac env:%s` cannot be loaded (clock %s)", neverSetEnv, clk.Label), doc(clk), nil)
 					} else {
 						r.Add("out_not_sent", 1)
 						r.Add("out_not_sent_unloadable_secret", 1)
@@ -396,16 +415,14 @@ func outboundFixed(r *runner.Run) bool {
 	r.Distinct("out|direct-secret|signed")
 	r.Distinct("out|direct-env-unset|not-sent")
 
-	// a version of the secrets block that cannot be loaded at start: the application does not start at all
+	// a version of the secrets block that cannot be loaded at start: does the application start at all?
 	for _, set := range allSets(2) {
 		for u := range set {
-			s := outSpec{Windows: set, Order: permutations(len(set))[0], Sel: modeDefault, Unload: u}
 			os.Unsetenv(envName(recheckWorker+2, u))
-			dsl := outDSL(s, recheckWorker+2)
-			a, err := bootRaw(dsl, recheckWorker+2)
+			a, err := bootRaw(outDSL(set, u, recheckWorker+2, allVariants(len(set))), recheckWorker+2)
 			r.Add("evaluations", 1)
 			if err == nil {
-				// it started: then nothing may be sent whenever that version is the pick
+				// it started; what it then sends is what the enumeration with Unload >= 0 judges
 				a.Shutdown()
 				r.Add("boot_accepted_unloadable_secret", 1)
 			} else {
@@ -441,7 +458,7 @@ func inbound(t *testing.T, r *runner.Run, deadline time.Time, workers int) bool 
 			}
 			if fl := inFailure(set, x, insts); fl != nil {
 				c := x.Case
-				r.Violation(fl.Key, fl.Msg, replayDoc{Part: "inbound", Set: set, InCase: &c, DSL: inDSL(set, worker)}, func() bool {
+				r.Violation(fl.Key, fl.Msg, replayDoc{Part: "inbound", Set: set, InCase: &c}, func() bool {
 					f2, err := replayIn(t, set, c)
 					return err == nil && f2 != nil && f2.Key == fl.Key
 				})
@@ -471,37 +488,41 @@ func inbound(t *testing.T, r *runner.Run, deadline time.Time, workers int) bool 
 
 func endToEnd(t *testing.T, r *runner.Run, deadline time.Time, workers int, ties *tieBook) bool {
 	clocks := clockInstants()
-	var specs []outSpec
-	maxN := runner.Pick(r, 2, 3)
-	for _, set := range allSets(maxN) {
-		for _, sel := range selections {
-			perms := permutations(len(set))
-			if len(set) == 3 {
-				perms = [][]int{perms[0], perms[len(perms)-1]} // identity and reversed listing order
+	// quick: tuples of <= 2 versions with every selection x order; thorough: also all triples, with
+	// every selection x {identity, reversed} order of the secret_ref lines
+	sets := allSets(runner.Pick(r, 2, 3))
+	return forEach(len(sets), workers, deadline, func(worker, i int) {
+		set := sets[i]
+		vars := allVariants(len(set))
+		if len(set) == 3 {
+			var vs []variant
+			nPerm := len(vars) / len(selections)
+			for vi, v := range vars {
+				if vi%nPerm == 0 || vi%nPerm == nPerm-1 {
+					vs = append(vs, v)
+				}
 			}
-			for _, p := range perms {
-				specs = append(specs, outSpec{Windows: set, Order: p, Sel: sel, Unload: -1})
-			}
+			vars = vs
 		}
-	}
-	return forEach(len(specs), workers, deadline, func(worker, i int) {
-		spec := specs[i]
-		obs, infra := runE2E(t, spec, worker, clocks)
+		obs, infra := runE2E(t, set, worker, vars, clocks)
 		if infra != nil {
-			r.Infra("e2e (%s): %v", spec, infra)
+			r.Infra("e2e (%s): %v", pattern(set), infra)
 			return
 		}
 		var pushes, silent int64
 		for _, o := range obs {
+			spec := outSpec{Windows: set, Order: vars[o.Var].Order, Sel: vars[o.Var].Sel, Unload: -1}
 			pick, tie, fl := judgeE2E(spec, o)
 			if fl != nil {
 				o := o
-				r.Violation(fl.Key, fl.Msg, replayDoc{Part: "e2e", Spec: &spec, Clock: o.Clock.Label, Shape: &shape{Route: o.Route}, DSL: outDSL(spec, worker)}, func() bool {
+				r.Violation(fl.Key, fl.Msg, replayDoc{Part: "e2e", Spec: &spec, Clock: o.Clock.Label, Shape: &shape{Route: o.Route}}, func() bool {
 					f2, err := replayE2E(t, spec, o.Clock, o.Route)
 					return err == nil && f2 != nil && f2.Key == fl.Key
 				})
 			}
-			ties.note(spec.Sel, tie, fmt.Sprintf("e2e %s clock=%s", spec, o.Clock.Label))
+			if tie != noTie {
+				ties.note(spec.Sel, tie, func() string { return fmt.Sprintf("e2e %s clock=%s", spec, o.Clock.Label) })
+			}
 			pushes += int64(len(o.Got))
 			if len(o.Got) == 0 {
 				silent++
@@ -510,9 +531,9 @@ func endToEnd(t *testing.T, r *runner.Run, deadline time.Time, workers int, ties
 				r.Distinct(fmt.Sprintf("e2e|%s|%s|%s|%s", pattern(spec.Windows), o.Clock.Label, spec.Sel, pickName(pick)))
 			}
 		}
-		if i%53 == 0 && len(obs) > 14 {
-			o := obs[14]
-			r.Sample(map[string]any{"part": "e2e", "windows": pattern(spec.Windows), "order": spec.Order, "selection": spec.Sel, "clock": o.Clock.Label, "route": outRoutes[o.Route].Route, "push_requests": len(o.Got)})
+		if i%23 == 0 && len(obs) > 14 {
+			o := obs[len(obs)/2]
+			r.Sample(map[string]any{"part": "e2e", "windows": pattern(set), "order": vars[o.Var].Order, "selection": vars[o.Var].Sel, "clock": o.Clock.Label, "route": routeOf(o.Var, o.Route), "push_requests": len(o.Got)})
 		}
 		r.Add("evaluations", int64(len(obs)))
 		r.Add("e2e_evaluations", int64(len(obs)))
